@@ -28,7 +28,7 @@ Proof.
   rewrite Ha, Hb. split; apply run_eq_spec_run.
 Qed.
 
-Lemma crun2_independent : forall ops va vb,
+Lemma crun2_independent : forall (V : Type) (ops : list (side * cop V)) va vb,
   on_side SideA (crun2 va vb ops) = crun va (on_side SideA ops) /\
   on_side SideB (crun2 va vb ops) = crun vb (on_side SideB ops).
 Proof.
